@@ -131,6 +131,10 @@ MUTANTS = [
      "trees.go edited by hand"),
     ("m45_template_only_edit", ["C19"], [R("cmd/go-art/tree.tmpl", "func (t *{{ .Name }}[K, V]) Size() int { return t.size }", "func (t *{{ .Name }}[K, V]) Size() int { return t.size + 0 }")],
      "template edited without regenerating"),
+    ("n14_range_stack_shared", ["C14", "C15"], [
+        R("tree.go", "\t\ttype item struct {\n\t\t\tref   nodeRef\n\t\t\tdepth int\n\t\t}\n\t\tvar q []item\n", "\t\tq := rsScratch[:0]\n\t\tdefer func() { rsScratch = q[:0] }()\n"),
+        R("tree.go", "func rangeScan[K nodeKey, V any, L nodeLeaf[V]](", "type item struct {\n\tref   nodeRef\n\tdepth int\n}\n\nvar rsScratch []item\n\nfunc rangeScan[K nodeKey, V any, L nodeLeaf[V]](")],
+     "Range's descent stack is one package-level slice reused by every scan: a Range started while another Range pass is under way (nested consumers, a query in the loop body) shares it"),
 ]
 
 
